@@ -209,7 +209,8 @@ def mark_cacheable(rng, g):
     g = copy.deepcopy(g)
     some = False
     for n in g["nodes"]:
-        if n["kind"] in ("func", "ifelse", "route") and rng.random() < 0.6:
+        # gates are cached more often than not: a restored routing decision has to act exactly like a computed one
+        if (n["kind"] == "func" and rng.random() < 0.6) or (n["kind"] in ("ifelse", "route") and rng.random() < 0.85):
             n["cache"] = True
             some = True
     return g, some
@@ -261,9 +262,19 @@ def program_part(ctx):
     n_runs, nontriv = 0, set()
     progs = 0
     try:
-        while progs < ctx.n(40, 800):
-            fam = rng.choice(["dag", "gated", "gated", "loop", "emit"])
-            g0, _ = gen.gen_program(rng, fam)
+        while progs < ctx.n(120, 1500):
+            fam = rng.choice(["dag", "gated", "gated", "multigate", "loop", "emit"])
+            if fam == "multigate":
+                # a multi-target route gate whose decisions are non-empty lists (restored from the cache on later runs)
+                g0 = gen.add_gates(rng, gen.gen_dag(rng, max_nodes=6, edge_defaults=0.1), n_gates=rng.randint(1, 2))
+                for n in g0["nodes"]:
+                    if n["kind"] == "route":
+                        tg = [t for t in n["targets"]]
+                        n["multi"], n["fallback"] = True, None
+                        n["fn"] = ["gtable", [[k, rng.sample(tg, rng.randint(1, len(tg)))] for k in range(4)], rng.sample(tg, 1)]
+                fam = "gated"
+            else:
+                g0, _ = gen.gen_program(rng, fam)
             g, some = mark_cacheable(rng, g0)
             if not some:
                 continue
